@@ -71,6 +71,10 @@ class StrInterp:
                         return RL.sigma_star(self.alpha)
                 if m == 'lower' and not args:
                     return RL.lower(base)
+                if m == 'removeprefix' and len(args) == 1 and isinstance(args[0], str) and args[0]:
+                    # words that start with the prefix lose it, the others are unchanged
+                    sw = RL.starts_with(self.alpha, args[0])
+                    return RL.union(RL.drop_first(RL.intersect(base, sw), len(args[0])), RL.difference(base, sw))
                 if m == 'rstrip' and len(args) == 1 and isinstance(args[0], str) and args[0]:
                     return RL.rstrip_chars(base, args[0])
                 if m in ('strip', 'lstrip', 'upper', 'title', 'format', 'zfill', 'rstrip', 'replace', 'join', 'capitalize',
